@@ -4,6 +4,7 @@ package main
 // C13 (error lines and paths), C18 (names, faulty files).
 
 import (
+	"time"
 	"fmt"
 	"sort"
 	"strconv"
@@ -74,6 +75,7 @@ func opStr(name string, data *GV) string    { return "(STR " + hx(name) + " " + 
 func opResp(name string, data *GV) string   { return "(RESP " + hx(name) + " " + dataTerm(data) + ")" }
 func opEvs(src string, data *GV) string     { return "(EVS " + hx(src) + " " + dataTerm(data) + ")" }
 func opEvf(path string, data *GV) string    { return "(EVF " + hx(path) + " " + dataTerm(data) + ")" }
+func opEvfRel(path string, data *GV) string { return "(EVFR " + hx(path) + " " + dataTerm(data) + ")" }
 func opReg(ty, name string, fid int) string { return fmt.Sprintf("(REG %s %s %d)", ty, hx(name), fid) }
 func opReset() string                       { return "(RESET)" }
 func opWrite(path, content string) string   { return "(WRITE " + hx(path) + " " + hx(content) + ")" }
@@ -168,6 +170,33 @@ const (
 
 func casesC06(g *Gen) []*Case {
 	var cs []*Case
+	// loop control inside an insert block ends the block, not the layout's loop around the reserve
+	{
+		t := newTree()
+		t.files["tpl/layouts/l.tw"] = `@each(q in [1, 2, 3])<@reserve("b")>!@end|@for(i = 0; i < 3; i++)(@reserve("c"))@end`
+		t.files["tpl/p1.tw"] = `@use("~l")@insert("b"){{ q }}@if(q == 2)@break@end@end`
+		t.files["tpl/p2.tw"] = `@use("~l")@insert("b"){{ q }}@continueIf(q == 2)x@end@insert("c"){{ i }}@breakIf(i == 0)y@end`
+		t.files["tpl/p3.tw"] = `@use("~l")@insert("b")@continue@end@insert("c")@break@end`
+		t.files["tpl/p4.tw"] = `@use("~l")@insert("b"){{ q }}@breakIf(q == 1)@end@insert("c")@if(i == 1)@continue@end{{ i }}@end`
+		c := histCase("loop_control_in_insert", t, []string{opNew("tpl", ".tw", "", false), opStr("p1", nil), opStr("p2", nil), opStr("p3", nil), opStr("p4", nil)},
+			"NewTemplate; pages whose insert blocks hold @break / @continue while the reserve sits in a loop of the layout")
+		c.Oracle = expectResults(map[int]func(string) string{0: wantNewOK, 1: wantOK("<1>!<2>!<3>!|()()()"), 2: wantOK("<1x>!<2>!<3x>!|(0)(1y)(2y)"),
+			3: wantOK("<>!<>!<>!|()()()"), 4: wantOK("<1>!<2>!<3>!|(0)()(2)")})
+		cs = append(cs, c)
+	}
+	// a tilde that is not the first character of a name is an ordinary character
+	{
+		t := newTree()
+		t.files["tpl/base~v2.tw"] = `[L @reserve("b")]`
+		t.files["tpl/layouts/v2.tw"] = `WRONG`
+		t.files["tpl/baselayouts/v2.tw"] = `WRONG2`
+		t.files["tpl/layouts/a~b.tw"] = `<@reserve("b")>`
+		t.files["tpl/p1.tw"] = `@use("base~v2")@insert("b")x@end`
+		t.files["tpl/p3.tw"] = `@use("~a~b")@insert("b")y@end`
+		c := histCase("tilde_inside_names", t, []string{opNew("tpl", ".tw", "", false), opStr("p1", nil), opStr("p3", nil)}, "NewTemplate; layouts named base~v2 and ~a~b")
+		c.Oracle = expectResults(map[int]func(string) string{0: wantNewOK, 1: wantOK("[L x]"), 2: wantOK("<y>")})
+		cs = append(cs, c)
+	}
 	names := []string{"head", "main", "foot"}
 	for i := 0; i < g.scale(1200, 30000); i++ {
 		nres := g.n(4)
@@ -595,6 +624,41 @@ func compTree() *Tree {
 
 func casesC07(g *Gen) []*Case {
 	var cs []*Case
+	// one component file named with several spellings on one page: every use renders, with its own argument and slot
+	{
+		t := newTree()
+		t.files["tpl/components/card.tw"] = `[{{ t }}@slot]`
+		t.files["tpl/card~x.tw"] = `(c)`
+		t.files["tpl/components/x.tw"] = `WRONGC`
+		t.files["tpl/p1.tw"] = `@component("components/card", {t: 1})@slot a@end@end@component("~card", {t: 2})@slot b@end@end@component("components//card", {t: 3})@component("./components/card", {t: 4})@slot c@end@end`
+		t.files["tpl/p2.tw"] = `@component("~card", {t: 1})@component("/components/card", {t: 2})@slot z@end@end`
+		t.files["tpl/p3.tw"] = `@component("components/../components/card", {t: 1})@component("~card", {t: 2})@slot z@end@end`
+		t.files["tpl/p4.tw"] = `@each(x in [1, 2])@component("components/./card", {t: x})@component("~card", {t: x + 5})@slot s@end@end;@end`
+		t.files["tpl/p5.tw"] = `@component("card~x")`
+		c := histCase("component_name_spellings", t, []string{opNew("tpl", ".tw", "", false), opStr("p1", nil), opStr("p2", nil), opStr("p3", nil), opStr("p4", nil), opStr("p5", nil)},
+			"NewTemplate; pages that name one component file in several ways")
+		c.Oracle = expectResults(map[int]func(string) string{0: wantNewOK, 1: wantOK("[1 a][2 b][3][4 c]"), 2: wantOK("[1][2 z]"), 3: wantOK("[1][2 z]"),
+			4: wantOK("[1][6 s];[2][7 s];"), 5: wantOK("(c)")})
+		cs = append(cs, c)
+	}
+	// a component is a scope of its own whether or not it gets arguments: nothing it assigns (file or slot bodies) reaches the page
+	{
+		t := newTree()
+		t.files["tpl/inc.tw"] = `{{ n = n + 1 }}<{{ n }}>`
+		t.files["tpl/w.tw"] = `[@slot]`
+		t.files["tpl/fresh.tw"] = `{{ fresh = 1 }}f`
+		t.files["tpl/p1.tw"] = `{{ n = 0 }}@component("inc")@component("inc"){{ n }}`
+		t.files["tpl/p2.tw"] = `{{ n = 0 }}@each(x in xs)@component("inc", {})@end{{ n }}`
+		t.files["tpl/p3.tw"] = `@component("w")@slot{{ k = 5 }}{{ k }}@end@end{{ k }}`
+		t.files["tpl/p4.tw"] = `@component("fresh"){{ fresh }}`
+		t.files["tpl/p5.tw"] = `{{ n = 0 }}@component("w")@slot{{ n = 9 }}{{ n }}@end@end{{ n }}`
+		t.files["tpl/p6.tw"] = `@component("fresh"){{ fresh = "s" }}{{ fresh }}`
+		d := gvMap("xs", gvList(gvInt(1), gvInt(2), gvInt(3)))
+		c := histCase("component_without_arguments_is_a_scope", t, []string{opNew("tpl", ".tw", "", false), opStr("p1", d), opStr("p2", d), opStr("p3", d), opStr("p4", d), opStr("p5", d), opStr("p6", d)},
+			"NewTemplate; pages whose components (no arguments, or {}) assign names")
+		c.Oracle = expectResults(map[int]func(string) string{0: wantNewOK, 1: wantOK("<1><1>0"), 2: wantOK("<1><1><1>0"), 3: wantErr("'k'"), 4: wantErr("'fresh'"), 5: wantOK("[9]0"), 6: wantOK("fs")})
+		cs = append(cs, c)
+	}
 	for i := 0; i < g.scale(1500, 40000); i++ {
 		who := g.pick([]string{"Ann", "Bo", ""})
 		data := gvMap("who", gvStr(who), "flag", gvBool(g.chance(1, 2)), "xs", gvList(gvInt(1), gvInt(2), gvInt(3)))
@@ -757,7 +821,9 @@ var evalFaults = []fault{
 
 // multi-line material that precedes the fault
 var multiLine = []string{"text\nmore text\n", "a\r\nb\r\n", "{{ \"str\nwith\nnewlines\" }}", "{{-- a\ncomment\n--}}", "{{--\nc\n--}}", "{{--\n\n--}}\n", "{{--\r\nc--}}", "{{-- c\n--}}", "{{ 1 +\n 2 }}", "{{\n\"x\"\n}}\n",
-	"@if(true)\nyes\n@end", "@each(q in [1,\n2])\n{{ q }}@end\n", "one line ", "", "\n\n\n", "{{ x = \"a\nb\" }}", "\\{{ not code\n", "<p>\n</p>\n"}
+	"@if(true)\nyes\n@end", "@each(q in [1,\n2])\n{{ q }}@end\n", "one line ", "", "\n\n\n",
+	// carriage returns on their own and other characters that look like line ends are not line ends
+	"a\rb", "\r", "{{ 1 +\r 2 }}", "{{-- c\rd --}}", "{{ \"s\rt\" }}", "x\r\ry\n", "\n\r", "\u2028", "\u0085", "\v\f", "\r\r\n", "{{ x = \"a\nb\" }}", "\\{{ not code\n", "<p>\n</p>\n"}
 
 func (g *Gen) preamble() string {
 	var sb strings.Builder
@@ -858,6 +924,32 @@ func casesC13(g *Gen) []*Case {
 			} else {
 				c.Oracle = expectResults(map[int]func(string) string{0: wantNewOK, 1: wantOK("fine"), 2: wantErrAt(line, path, f.msgPart)})
 			}
+			cs = append(cs, c)
+		}
+	}
+	// directories and files whose names hold a percent sign (or look like format verbs): path and line are reported as they are
+	for _, dir := range []string{"50%off", "promo%20pages", "100%done", "%s", "%d%d", "a%!b", "p%", "%%", "x%vy", "ok"} {
+		for _, file := range []string{"page", "10%", "%s%d", "q%20r"} {
+			if dir == "ok" && file == "page" {
+				continue
+			}
+			t := newTree()
+			t.files["tpl/"+dir+"/"+file+".tw"] = "line one\n\n{{ nosuchname }}"
+			t.files["tpl/"+dir+"/bad.tw"] = "x\n{{ 1 + }}"
+			ops := []string{opNew("tpl", ".tw", "", false)}
+			c := histCase("percent_in_paths", t, ops, "NewTemplate over a tree with a syntax error in "+dir+"/bad.tw")
+			c.Oracle = expectResults(map[int]func(string) string{0: wantErrAt(2, "tpl/"+dir+"/bad.tw", "")})
+			cs = append(cs, c)
+			t2 := newTree()
+			t2.files["tpl/"+dir+"/"+file+".tw"] = "line one\n\n{{ nosuchname }}"
+			c = histCase("percent_in_paths", t2, []string{opNew("tpl", ".tw", "", false), opStr(dir+"/"+file, nil), opResp(dir+"/"+file, nil)}, "NewTemplate; String and Response of "+dir+"/"+file)
+			c.Oracle = expectResults(map[int]func(string) string{0: wantNewOK, 1: wantErrAt(3, "tpl/"+dir+"/"+file+".tw", "nosuchname")})
+			cs = append(cs, c)
+			// the directory itself
+			t3 := newTree()
+			t3.files[dir+"/"+file+".tw"] = "\n{{ 7 / 0 }}"
+			c = histCase("percent_in_paths", t3, []string{opNew(dir, ".tw", "", false), opStr(file, nil)}, "NewTemplate("+dir+"); String("+file+")")
+			c.Oracle = expectResults(map[int]func(string) string{0: wantNewOK, 1: wantErrAt(2, dir+"/"+file+".tw", "division by zero")})
 			cs = append(cs, c)
 		}
 	}
@@ -1067,6 +1159,27 @@ func casesC18(g *Gen) []*Case {
 		c2.Oracle = expectResults(map[int]func(string) string{0: wantErr("nosuchcomp")})
 		cs = append(cs, c2)
 	}
+	// loading while other goroutines evaluate strings and files: every load registers the same files
+	for _, G := range []int{2, 6} {
+		t := newTree()
+		t.files["tpl/layouts/main.tw"] = `<L>@reserve("body")</L>`
+		t.files["tpl/components/card.tw"] = `[{{ t }}@slot]`
+		for k := 0; k < 12; k++ {
+			t.files[fmt.Sprintf("tpl/pages/p%02d.tw", k)] = `@use("~main")@insert("body")@component("~card", {t: 1})@slot x@end@end@end`
+		}
+		t.files["files/f.tw"] = "file {{ 1 + 1 }}"
+		fields := []string{t.term(), strconv.Itoa(G), "150", opNew("tpl", ".tw", "", false), opEvs("{{ 1 + 2 }}", nil), opEvf("files/f.tw", nil), opEvs("{{ nosuch }}", nil)}
+		c := &Case{Kind: "loadconc", Fields: fields, Family: "load_while_strings_are_evaluated", NoModel: true,
+			Note: fmt.Sprintf("NewTemplate x150 over layouts, components and pages while %d goroutines call EvaluateString / EvaluateFile", G)}
+		c.Timeout = 120 * time.Second
+		c.Oracle = func(c *Case, impl string) string {
+			if strings.HasPrefix(impl, "LOADCONC ok") && strings.Contains(impl, "answer=NEWOK") {
+				return ""
+			}
+			return "a load that overlaps with string evaluations did not answer what it answers alone: " + clip(impl, 400)
+		}
+		cs = append(cs, c)
+	}
 	// the tree changes between two loads: every load sees the tree as it is then
 	{
 		t := newTree()
@@ -1192,8 +1305,36 @@ func casesC18(g *Gen) []*Case {
 	for i := 0; i < g.scale(300, 6000); i++ {
 		sc := stdScope()
 		src := g.template(sc, 2)
+		if i%4 == 0 {
+			// bytes that tools add to or strip from the start and end of files
+			src = g.pick([]string{"\xef\xbb\xbf", "\xef\xbb\xbf\xef\xbb\xbf", "\xfe\xff", "\xff\xfe", "\x00", "\n", "\r\n", " ", "\t", "\u00a0", "\u2028", "\x1a", "#!", "\xef\xbb"}) + src +
+				g.pick([]string{"", "\n", "\r\n", "\n\n", "\x00", "\x1a", " ", "\xef\xbb\xbf"})
+		}
 		t := newTree()
 		t.files["some/dir/f.tw"] = src
+		if i%4 == 0 {
+			// the same content as a page, a layout's insert and a component
+			t.files["tpl/page.tw"] = src
+			t.files["tpl/usesc.tw"] = "<@component(\"page\")>"
+			cp := histCase("leading_bytes_in_tree", t, []string{opEvs(src, sc.data), opNew("tpl", ".tw", "", false), opStr("page", sc.data), opEvs("<"+src+">", sc.data), opStr("usesc", sc.data)},
+				"EvaluateString(content); NewTemplate; String(page) ; the same content as a component")
+			cp.Oracle = func(c *Case, impl string) string {
+				rs := results(impl)
+				if len(rs) < 5 {
+					return "missing answers"
+				}
+				if strings.HasPrefix(rs[0], "OK") && strings.HasPrefix(rs[1], "NEWOK") {
+					if rs[2] != rs[0] {
+						return fmt.Sprintf("the page rendered as %s but its content evaluated as a string gives %s", describe(rs[2]), describe(rs[0]))
+					}
+					if strings.HasPrefix(rs[3], "OK") && rs[4] != rs[3] && !strings.Contains(src, "@use") && !strings.Contains(src, "@reserve") && !strings.Contains(src, "@slot") {
+						return fmt.Sprintf("the component rendered as %s but the same content inline gives %s", describe(rs[4]), describe(rs[3]))
+					}
+				}
+				return ""
+			}
+			cs = append(cs, cp)
+		}
 		c := histCase("evaluate_file", t, []string{opEvs(src, sc.data), opEvf("some/dir/f.tw", sc.data), opEvf("some/dir/missing.tw", sc.data)}, "EvaluateString(content); EvaluateFile(path); EvaluateFile(missing)")
 		c.Oracle = func(c *Case, impl string) string {
 			rs := results(impl)
